@@ -706,7 +706,7 @@ Proof.
     destruct (atomic_complete (fs0 c) 1 0 (k_chunks c) (fs0_wf c) ltac:(discriminate)) as (A & B & C).
     f_equal.
     + rewrite A. unfold classify. cbv zeta.
-      destruct (obytes_eqb (Some (concat (k_chunks c))) (read_name (fs0 c) 0)) eqn:E.
+      match goal with |- context [obytes_eqb ?a ?b] => destruct (obytes_eqb a b) eqn:E end.
       * apply obytes_eqb_eq in E. exfalso. apply Hne. symmetry. exact E.
       * assert (Hb : bytes_eqb (concat (k_chunks c)) (new_content c) = true) by (apply bytes_eqb_eq; reflexivity).
         rewrite ?E, Hb. reflexivity.
@@ -714,6 +714,7 @@ Proof.
 Qed.
 
 (* the model's reader positions are instances of the schedules of atomic_reader_safe *)
+Opaque big.
 Lemma irun_wblock : forall k sc w wp r rp,
   irun (repeat true k ++ sc) w wp r rp = irun sc (wrun w (firstn k wp)) (skipn k wp) r rp.
 Proof.
@@ -754,7 +755,7 @@ Proof.
   destruct Hs as [(He & _ & Hn)|(He & d & done & rest & E & Hd & Hg & Hr)].
   - rewrite He. apply classify_good. left. symmetry. exact Hn.
   - rewrite He. specialize (Hr eq_refl). subst rest. rewrite app_nil_r in E. subst done.
-    simpl in Hg. rewrite Nat.add_0_r in Hg.
+    assert (Hsum : sum [big] = big) by (unfold sum; cbn [fold_right]; apply Nat.add_0_r). rewrite Hsum in Hg.
     assert (Hd' : r_got r = d).
     { rewrite Hg. apply firstn_all2. destruct Hd as [Hd|Hd]; [apply Hold; exact Hd|subst d; exact Hnew]. }
     rewrite Hd'. apply classify_good. destruct Hd as [Hd|Hd]; [left; symmetry; exact Hd|right; subst; reflexivity].
